@@ -44,19 +44,51 @@ def run_isoquant(outdir, args, home=None, env=None, timeout=600, wrapper=None, p
     return p.returncode, p.stdout + p.stderr
 
 
-def std_args(paths, prefix="S", data_type="nanopore", threads=1, genedb=True, extra=()):
+# Output prefixes (`-p`) / experiment names a run may be given.  Every entry but the last two occurs inside a file suffix
+# IsoQuant itself appends (`.transcript_models.gtf`, `.corrected_reads.bed`, `.gene_counts.tsv`,
+# `.read_assignments.tsv`, `.novel_vs_known.SQANTI-like.tsv`): audit2-A F1 / audit2-B defect 13 - `merge_file_list` used to
+# replace the LAST occurrence of the prefix in the path.  `S` stays in the pool: together with `--sqanti_output` it is the
+# first recorded case of the family.
+PREFIX_POOL = ["S", "a", "t", "e", "reads", "gene", "counts", "S", "Q7x", "x.y"]
+_CURRENT_PREFIX = ["S"]
+
+
+def pick_prefix(rng):
+    return rng.choice(PREFIX_POOL)
+
+
+def use_prefix(prefix):
+    """prefix used by `std_args` / `out_files` calls that do not name one (a property module draws it with `pick_prefix`
+    from its seeded generator and records it in the failure input; `use_prefix("S")` restores the default)"""
+    _CURRENT_PREFIX[0] = prefix or "S"
+
+
+def current_prefix():
+    return _CURRENT_PREFIX[0]
+
+
+def std_args(paths, prefix=None, data_type="nanopore", threads=1, genedb=True, extra=(), gzipped=False):
+    """gzipped=True: IsoQuant's default output mode (read_assignments.tsv.gz, corrected_reads.bed.gz,
+    transcript_model_reads.tsv.gz); compare such files decompressed (DESIGN §6: the header line to ignore and the gzip time
+    stamp are inside the compressed file)"""
     a = ["--threads", str(threads), "--bam", paths["bam"], "--reference", paths["ref"], "--data_type", data_type,
-         "-p", prefix, "--no_gzip"]
+         "-p", prefix or current_prefix()] + ([] if gzipped else ["--no_gzip"])
     if genedb:
         a += ["--genedb", paths["gtf"], "--complete_genedb"]
     return a + list(extra)
 
 
-def out_files(outdir, prefix="S"):
-    d = os.path.join(outdir, prefix)
+def out_files(outdir, prefix=None):
+    """file name -> path of <outdir>/<prefix>/*.  Without an explicit prefix the run used `current_prefix()` and the keys
+    are given as if it had been `S` (`S.corrected_reads.bed`, ...), so callers written for the default keep working."""
+    p = prefix or current_prefix()
+    d = os.path.join(outdir, p)
     if not os.path.isdir(d):
         return {}
-    return {fn: os.path.join(d, fn) for fn in sorted(os.listdir(d)) if os.path.isfile(os.path.join(d, fn))}
+    res = {fn: os.path.join(d, fn) for fn in sorted(os.listdir(d)) if os.path.isfile(os.path.join(d, fn))}
+    if prefix is None and p != "S":
+        res = {("S" + fn[len(p):] if fn.startswith(p) else fn): path for fn, path in res.items()}
+    return res
 
 
 def read_lines(path, skip_header=True):
@@ -129,3 +161,13 @@ def parse_gtf(path):
 def strip_cmdline(text):
     """output files compared modulo the command-line / version header lines"""
     return "\n".join(l for l in text.split("\n") if not (l.startswith("# Command line") or "IsoQuant version" in l or l.startswith("# IsoQuant")))
+
+
+def read_text(path):
+    """text of an output file; a .gz file decompressed"""
+    if path.endswith(".gz"):
+        import gzip
+        with gzip.open(path, "rt", errors="replace") as f:
+            return f.read()
+    with open(path, errors="replace") as f:
+        return f.read()
